@@ -508,6 +508,14 @@ fire('par12-default-node-constant-type', ['C05'], ['PAR-12'], 'unknown rules all
 silent('s-par12-explicit-class', ['C05'], 'one rule is special-cased with its own class under a matching test',
        (PYPARSER, "        try:\n            node = self.node_map[nonterminal](children)\n        except KeyError:\n            if nonterminal == 'suite':", "        if nonterminal == 'expr_stmt':\n            return tree.ExprStmt(children)\n        try:\n            node = self.node_map[nonterminal](children)\n        except KeyError:\n            if nonterminal == 'suite':"))
 
+# TREE-9 slot values are picklable
+fire('tree9-used-names-mappingproxy', ['C19'], ['TREE-9'], 'the used-names memo stores a types.MappingProxyType (rt5-C19)',
+     (PYTREE, "            self._used_names = UsedNamesMapping(dct)", "            import types\n            self._used_names = types.MappingProxyType(dct)"))
+fire('tree9-used-names-view', ['C19'], ['TREE-9'], 'the used-names memo stores a dict view',
+     (PYTREE, "            self._used_names = UsedNamesMapping(dct)", "            self._used_names = dct.items()"))
+silent('s-tree9-used-names-dict', ['C19'], 'the used-names memo stores a plain dict copy',
+       (PYTREE, "            self._used_names = UsedNamesMapping(dct)", "            self._used_names = UsedNamesMapping(dict(dct))"))
+
 # TOK-3 typestate
 fire('tok3-comment-drops-prefix', ['C01', 'C09'], ['TOK-3'], 'a comment inside brackets replaces the pending prefix instead of extending it',
      (TOK, "                else:\n                    additional_prefix = prefix + token\n            elif token in triple_quoted:", "                else:\n                    additional_prefix = token\n            elif token in triple_quoted:"))
